@@ -1,4 +1,5 @@
 import Tau.Proofs.Frame
+import Tau.Proofs.TraceKeys
 import Tau.Rule
 /-
   C16 — Matching reads only the fields the rule names.
@@ -73,5 +74,47 @@ example :
   intro e k hk
   simp [e, keysOf, keysOfL] at hk
   rcases hk with rfl | rfl <;> rfl
+
+end Tau.C16
+
+namespace Tau.C16
+open Tau
+
+/-- Identifier bodies and coalesced rules: every key asked of the document is named by the tree. -/
+theorem trace_closed_subset (E : RegexEngine) (d : Doc) (e : Expr) :
+    ∀ k ∈ traceClosed E d e, k ∈ keysOf e := by
+  intro k hk
+  have := trace_sub E closedK closedT d [] (fun _ _ h => by simp [closedT] at h)
+    (fun _ _ _ h => by simp [closedT] at h) e.size e (Nat.le_refl _) k hk
+  simpa using this
+
+/-- **While matching, the engine asks the document only for keys written in the rule**: every key
+    in the trace of a rule evaluation is a key the condition or one of the identifier bodies names
+    at its own level (a nested block names only its own key; a matrix names its real column names —
+    the synthetic one-character keys never reach the document). The trace of the model is compared
+    with the recording `Document` of the harness on every generated case. -/
+theorem trace_subset (E : RegexEngine) (ids : Ids) (d : Doc) (e : Expr) :
+    ∀ k ∈ traceTop E ids d e, k ∈ ruleKeys ids e := by
+  intro k hk
+  have hbody : ∀ i b, lookupId ids i = some b → ∀ k ∈ keysOf b, k ∈ ids.flatMap (fun p => keysOf p.2) :=
+    fun i b h => lookup_keys ids i b h
+  have := trace_sub E (topK E ids) (topT E ids) d (ids.flatMap (fun p => keysOf p.2))
+    (fun i k hk => by
+      simp only [topT] at hk
+      cases hl : lookupId ids i with
+      | none => simp [hl] at hk
+      | some b =>
+        rw [hl] at hk
+        exact hbody i b hl k (trace_closed_subset E d b k hk))
+    (fun m i k hk => by
+      simp only [topT] at hk
+      cases hl : lookupId ids i with
+      | none => simp [hl] at hk
+      | some b =>
+        rw [hl] at hk
+        have := trace_closed_subset E d (.match m b) k hk
+        exact hbody i b hl k (by simpa [keysOf] using this))
+    e.size e (Nat.le_refl _) k hk
+  simpa [ruleKeys, traceTop] using this
 
 end Tau.C16
